@@ -111,10 +111,26 @@ def check_write(ctx: Ctx) -> None:
     ctx.require("R-WRITE", "atomic write sites (with atomic_output_file)", len(atomic_sites), 1)
 
     # W1 who-may-write: every fs-mutating call is a write through the `as` target of an enclosing atomic context
+    # (reformat_file, or private code that only it and reformat_files run: "extract method" of the same write)
+    from .common import callers_index
+
+    idx_ = callers_index(prog)
+    writers = {rf.qual}
+    rfs_q = "flowmark.reformat_api:reformat_files"
+    grew = True
+    while grew:
+        grew = False
+        for q_, f_ in repo.functions.items():
+            if q_ in writers or f_.module is not rf.module or not f_.name.startswith("_") or f_.name.startswith("__"):
+                continue
+            cs_ = idx_.get(q_, set())
+            if cs_ and cs_ <= writers | {rfs_q}:
+                writers.add(q_)
+                grew = True
     for fi, n, c, eff in sites:
         key = f"{fi.qual} :: {norm(c.func)}"
         if eff in ("atomic-ctx", "atomic-wrapper"):
-            ctx.ob("R-WRITE-W1", key, fi is rf or fi.qual == rf.qual,
+            ctx.ob("R-WRITE-W1", key, fi.qual in writers,
                    "the atomic output context may only be opened by reformat_file", where(fi, c))
             continue
         ok = False
@@ -131,7 +147,9 @@ def check_write(ctx: Ctx) -> None:
 
     # per-site rules inside reformat_file
     flow = prog.flow(rf)
-    rt_nodes = {n for n, c in flow.all_calls() if call_name(prog, rf, c) == "flowmark.reformat_api:reformat_text"}
+    # the in-memory formatting step: reformat_text, or the formatters it delegates to when its body is written out here
+    FORMATTERS = ("flowmark.reformat_api:reformat_text", "flowmark.linewrapping.markdown_filling:fill_markdown", "flowmark.linewrapping.text_filling:fill_text")
+    rt_nodes = {n for n, c in flow.all_calls() if call_name(prog, rf, c) in FORMATTERS}
     ctx.require("R-WRITE", "call to reformat_text in reformat_file", len(rt_nodes), 1)
     read_nodes = {n for n, c in flow.all_calls() if isinstance(c.func, ast.Attribute) and c.func.attr in ("read", "read_text", "read_bytes")}
     ctx.require("R-WRITE", "read sites in reformat_file", len(read_nodes), 1)
